@@ -281,3 +281,135 @@ func VH_C02_L1(atom, lmax, alphaSel int) {
 
 func vKnownC02L1(atom int, a vAtom, k []byte) {
 }
+
+// ---------------------------------------------------------------- L3: physical scans
+
+func vTrueFilter() *FilterExec {
+	return &FilterExec{Ast: &WhereStmt{Expr: &BoolExpr{Data: "true", Bool: true}}}
+}
+
+// vSymRegionPlan builds a scan node of the given kind directly, with a symbolic region.
+// kind: 0 empty, 1 full, 2 prefix, 3 range[a,b], 4 range[a,nil], 5 range[nil,b], 6 mget(1..3 keys)
+func vSymRegionPlan(kind int, st Storage, lmax int, alpha string) Plan {
+	f := vTrueFilter()
+	switch kind {
+	case 0:
+		return NewEmptyResultPlan(st, f)
+	case 1:
+		return NewFullScanPlan(st, f)
+	case 2:
+		p := vNondetBytes("p", 0, lmax, alpha)
+		return NewPrefixScanPlan(st, f, string(p))
+	case 3:
+		a := vNondetBytes("ra", 0, lmax, alpha)
+		b := vNondetBytes("rb", 0, lmax, alpha)
+		return NewRangeScanPlan(st, f, a, b)
+	case 4:
+		a := vNondetBytes("ra", 0, lmax, alpha)
+		return NewRangeScanPlan(st, f, a, nil)
+	case 5:
+		b := vNondetBytes("rb", 0, lmax, alpha)
+		return NewRangeScanPlan(st, f, nil, b)
+	}
+	nk := 1 + vChoose("nkeys", 3)
+	keys := make([]string, nk)
+	for i := range keys {
+		keys[i] = string(vNondetBytes("m"+vItoa(i), 0, lmax, alpha))
+	}
+	return NewMultiGetPlan(st, f, keys)
+}
+
+func vDrainPlanNext(p Plan, max int) ([]KVPair, error) {
+	ctx := NewExecuteCtx()
+	var out []KVPair
+	for i := 0; i <= max; i++ {
+		k, v, err := p.Next(ctx)
+		if err != nil {
+			return out, err
+		}
+		if k == nil && v == nil {
+			return out, nil
+		}
+		out = append(out, NewKVP(k, v))
+	}
+	vAssert(false, "harness/plan-next-does-not-terminate")
+	return out, nil
+}
+
+func vDrainPlanBatch(p Plan, max int) ([]KVPair, error) {
+	ctx := NewExecuteCtx()
+	var out []KVPair
+	for i := 0; i <= max; i++ {
+		rows, err := p.Batch(ctx)
+		if err != nil {
+			return out, err
+		}
+		if len(rows) == 0 {
+			return out, nil
+		}
+		out = append(out, rows...)
+		ctx.Clear()
+	}
+	vAssert(false, "harness/plan-batch-does-not-terminate")
+	return out, nil
+}
+
+// VH_C02_L3: a scan node hands every stored key of its region to the filter exactly once, in
+// ascending order, in both iteration modes; and (C18) it reads nothing outside the region
+// except at most one key beyond its end, point plans never open a cursor, the empty plan
+// touches nothing.
+func VH_C02_L3(kind, n, B, mode int) {
+	alpha := "ab"
+	st := vSymStore(n, 0, 2, 1, 1, alpha, "xy")
+	PlanBatchSize = B
+	p := vSymRegionPlan(kind, st, 2, alpha)
+	vAssert(p.Init() == nil, "harness/C02-L3-init")
+	var rows []KVPair
+	var err error
+	if mode == 0 {
+		rows, err = vDrainPlanNext(p, n+1)
+	} else {
+		rows, err = vDrainPlanBatch(p, n+1)
+	}
+	vAssert(err == nil, "C02/L3-scan-error")
+	// expected: the stored pairs whose key is in the region, in store order
+	j := 0
+	ok := true
+	for i := 0; i < n; i++ {
+		in := vGamma(p, st.keys[i])
+		if in { // forks: which stored keys lie in the region
+			if j < len(rows) {
+				ok = vAnd(ok, vAnd(bytes.Equal(rows[j].Key, st.keys[i]), bytes.Equal(rows[j].Value, st.vals[i])))
+			} else {
+				ok = false
+			}
+			j++
+		}
+	}
+	vAssert(vAnd(ok, j == len(rows)), "C02/L3-region-keys-once-in-order")
+	vCover("drained")
+	// C18 physical part: what was read
+	beyond := 0
+	cursors := 0
+	for _, c := range st.log {
+		switch c.Op {
+		case "Cursor":
+			cursors++
+		case "Get":
+			vAssert(vGamma(p, c.Key), "C18/L3-point-read-inside-key-set")
+		case "Next":
+			if c.Key != nil && !vGamma(p, c.Key) {
+				beyond++
+			}
+		case "Put", "BatchPut", "Delete", "BatchDelete":
+			vAssert(false, "C13/scan-mutates")
+		}
+	}
+	vAssert(beyond <= 1, "C18/L3-at-most-one-key-beyond-region")
+	switch p.(type) {
+	case *MultiGetPlan:
+		vAssert(cursors == 0, "C18/L3-point-plan-opens-no-cursor")
+	case *EmptyResultPlan:
+		vAssert(len(st.log) == 0, "C18/L3-empty-plan-touches-storage")
+	}
+}
